@@ -457,6 +457,7 @@ def gen_C02(rng, ci, tier):
             s.add("eq", 0, window_sd(0, a0, a0 + n, rng), window_sd(0, a0 + 1, a0 + 1 + n, rng))
         s.add("eq", 3, SD(0), SD(0, [(5, 0, 0)]))
         out.append(s.ops)
+    out += arr_scripts(rng, ci, tier, scale(tier, 40, 800))
     # k-mers against slices / owned / text, every storage type
     for it in range(scale(tier, 90, 1800)):
         s = Script(ci)
@@ -905,8 +906,41 @@ def gen_C12(rng, ci, tier):
             s.add("contains", 1, SD(o1), SD(d2.reg, d2.ranges + [(4, 1, 0)]))
         s.add("tocomp", d1); s.regs.append(None); s.add("codes", SD(len(s.regs) - 1))
         out.append(s.ops)
+    out += arr_scripts(rng, ci, tier, scale(tier, 60, 1200))
     return out
 
+
+
+ARR_GRID = {"dna": [1, 2, 3, 4, 5, 8, 16, 31, 32, 33, 40, 64, 65],
+            "iupac": [1, 2, 3, 4, 8, 15, 16, 17, 20, 32, 33]}
+
+
+def arr_scripts(rng, ci, tier, count):
+    """SeqArray<A, N, W> (the type behind dna!/iupac! literals) against slices at arbitrary offsets"""
+    out = []
+    if ci.name not in ARR_GRID:
+        return out
+    for it in range(count):
+        s = Script(ci)
+        n = rng.choice(ARR_GRID[ci.name])
+        codes = rand_codes(rng, ci, n)
+        kind = rng.choice(["equal", "equal", "onesym", "subset", "shorter", "longer", "other"])
+        other = list(codes)
+        if kind == "onesym":
+            p = rng.choice([0, n - 1, rng.randrange(n)])
+            other[p] = rng.choice([c for c in ci.items if c != other[p]])
+        elif kind == "subset" and ci.name == "iupac":
+            other = [c & rng.getrandbits(4) for c in codes]
+        elif kind == "shorter":
+            other = other[:-1]
+        elif kind == "longer":
+            other = other + rand_codes(rng, ci, 1)
+        elif kind == "other":
+            other = rand_codes(rng, ci, n)
+        d = s.embed(rng, other)
+        s.add("arr", codes, d)
+        out.append(s.ops)
+    return out
 
 # ---------------------------------------------------------------- C19
 def gen_C19_conv(rng, ci, tier):
